@@ -124,7 +124,11 @@ fn main() {
     }
 
     // 5. evidence + verdict
-    let ev = ctx.evidence(prop.rule, prop.assumptions, &known_lines);
+    let mut ev = ctx.evidence(prop.rule, prop.assumptions, &known_lines);
+    if id == "C05" {
+        // writers failing after n bytes are enumerated per value: fault enumeration
+        ev["level"] = serde_json::json!("fault_enumeration");
+    }
     if let Some(p) = &evidence {
         if let Some(parent) = std::path::Path::new(p).parent() {
             let _ = std::fs::create_dir_all(parent);
